@@ -69,6 +69,10 @@ func (in *vfGWInst) track(evFull string) {
 		in.announced[f[1]][f[2]] = true
 	case "unsub":
 		delete(in.announced[f[1]], f[2])
+	case "sub2":
+		for _, t := range strings.Split(f[2], "+") {
+			in.announced[f[1]][t] = true
+		}
 	case "disc", "inclose", "inreset", "inopen", "outreset", "outclose":
 		in.announced[f[1]] = map[string]bool{}
 	case "bl":
@@ -100,6 +104,11 @@ func (in *vfGWInst) Enabled() []string {
 			ok = g.conn[f[1]] && !in.announced[f[1]][f[2]] && g.fake(f[1]).inAlive()
 		case "unsub":
 			ok = g.conn[f[1]] && in.announced[f[1]][f[2]] && g.fake(f[1]).inAlive()
+		case "sub2":
+			ok = g.conn[f[1]] && g.fake(f[1]).inAlive()
+			for _, t := range strings.Split(f[2], "+") {
+				ok = ok && !in.announced[f[1]][t]
+			}
 		case "graft", "prune", "prunepx", "pub", "pubdup", "ihave", "iwant", "idw":
 			ok = g.conn[f[1]] && g.fake(f[1]).inAlive()
 		case "inclose", "inreset":
